@@ -5,6 +5,30 @@ V = os.path.dirname(os.path.dirname(os.path.abspath(__file__)))
 
 CHECKS = {
  # id: (technique, level text, level note, design ref)
+ "C07": ("TLC model checking of MC_Irq over the complete IF x IE x IME x run-state x SP-class x PC-class space + the same space exported by TLC (Gen_Irq) and replayed through Core::handle_interrupt / Core::update",
+         "Dispatch is a finite function of a finite state: the six clauses of the statement are checked by TLC on every point of the space and every point is executed on the code (552 960 cases), so the binding is exhaustive over the stated quantifier.",
+         "Trusted: TLC, the harness field mapping (cmd_irq.rs, world.rs poke). Stack-pointer classes stand for regions; pushes onto other device registers are covered by the machine traces of C04/C08.",
+         "DESIGN.md 5/C07"),
+ "C08": ("TLC model checking of MC_IntState (all sequences <= L with device requests while halted) + every sequence <= L materialised as a real program, stepped with Core::update and validated step by step by TLC against Machine.tla (Trace_Machine)",
+         "History property over instruction sequences: TLC enumerates all sequences on the model; the same sequences run on the code and each recorded step must be the specification's step, so a sequencing error at any position is caught.",
+         "Trusted: TLC, Machine.tla as the reading of the SM83/DMG behaviour, the recorder projection (cmd_machine.rs). HALT with an enabled interrupt already pending behaves as the emulator's simplification (wakes at once).",
+         "DESIGN.md 5/C08"),
+ "C09": ("TLC model checking of MC_Clock (conservation invariant over all step/halt/dispatch interleavings, frame-stepping liveness under weak fairness on a scaled LCD) + Trace_Clock validating the time projection of recorded machine traces in three stepping modes (hooks: CPU-reported cycles, per-device delivered clocks)",
+         "Conservation is an invariant of every step of every run: the model is checked exhaustively and every recorded step of instruction-stepped, block-stepped and jit runs (incl. run_frame calls) is checked against it using counters that do not depend on device semantics.",
+         "Trusted: TLC, the three clock-counter hooks and the CPU-cycle hook. The frame clause assumes no single step is longer than the vertical blanking period (TLC shows it false otherwise; see DESIGN 6).",
+         "DESIGN.md 5/C09"),
+ "C13": ("TLC: theorems (closed form = per-clock machine, additivity, DIV/period/TAC-edge laws) and MC_Timer (write/advance interleavings in lock-step with a per-clock shadow) + recorded histories (bus writes, batches 1..100000, phases via hook, partition runs) validated by Trace_Timer",
+         "Batching independence is additivity of the specification (checked by TLC) plus conformance of every recorded batch to it; partition runs deliver the same scenario under 8 partitions.",
+         "Trusted: TLC, Timer.tla, the divider-phase hook. A DIV write while the selected bit is high may or may not clock TIMA (statement silent): both accepted.",
+         "DESIGN.md 5/C13"),
+ "C14": ("TLC: theorems (closed-form schedule = 4-clock state machine over a whole frame x STAT masks x LYC, additivity, frame/mode/STAT laws) and MC_Lcd + recorded histories (all 16 STAT masks x LYC set over >3 frames in random partitions, hook-set start positions) validated by Trace_Lcd",
+         "The schedule is a closed-form function of elapsed clocks in the specification (the statement), so any partition-dependent or off-by-a-line behaviour of the code is a rejected trace.",
+         "Trusted: TLC, Lcd.tla, the LCD position hook (start positions restricted to modes 0/1 where the pixel pipeline is idle). STAT requests at register-write time are accepted either way.",
+         "DESIGN.md 5/C14"),
+ "C16": ("TLC model checking of MC_Dma (scaled length; start/advance/modify interleavings, per-cycle shadow) + recorded histories with the real length over all 256 source pages, random partitions, source edits, restarts, validated by Trace_Dma",
+         "Copy progress, order, source-at-copy-time and 'nothing else touched' are state invariants of the trace specification evaluated after every recorded batch.",
+         "Trusted: TLC, the DMA progress hook, the recorder's source snapshot (taken through the real bus immediately before each batch) and its hash of all other memory.",
+         "DESIGN.md 5/C16"),
  "C17": ("TLC model checking of MC_Joypad + complete transition relation exported by TLC (Gen_Joypad) replayed on the real Joypad and through the bus/IF + recorded random histories validated by TLC (Trace_Joypad)",
          "The joypad is a 2^11-state machine: TLC explores every interleaving on the model and the complete transition relation (40 960 transitions) is executed on the code, so the binding is exhaustive, not sampled.",
          "Trusted: TLC, the harness field mapping (cmd_joypad.rs), the verif_pending hook. Buttons are injected at the Joypad API (the graphics shell is out of scope).",
